@@ -1,3 +1,7 @@
 Require Extraction. Require Import ExtrOcamlBasic.
-From GV Require Import RcuModel.
-Extraction "rcu_model.ml" RcuModel.run_case.
+From Coq Require Import List ZArith Bool.
+From GV Require Import Sched Enum RcuModel.
+Definition enum_case (cfg : list Z) (progs : list (list (list Z))) (depth budget : Z) :=
+  let unf := match cfg with u :: _ => negb (Z.eqb u 0) | nil => false end in
+  enum_case_gen glob loc tstep (init unf (map decode_prog progs)) depth budget.
+Extraction "rcu_model.ml" RcuModel.run_case enum_case.
